@@ -6,7 +6,8 @@
   client is stored under the meta session's key, every session marked as ending is attached — and has
   pairwise distinct client keys: the per-realm facts of `Realm.Reachable.clients_wf`, lifted to the router
   (whose realms are not literally `Realm.Reachable`: a realm created by the router starts with an offset
-  publication counter, and `.rnd` sets the oracle directly).
+  publication counter and — when created later — at the router's current time, and `.rnd` sets the oracle
+  directly).
 -/
 import Nexus.L2.Proofs.WpCShutdownRouter
 import Nexus.L2.Proofs.RealmKeys
@@ -42,6 +43,13 @@ theorem keysOk_created {cfg : Config} {r : Realm} (h : Realm.create cfg = some r
   have h0 : KeysOk r := ⟨hr.inv.1, hr.inv.2, hr.ctl, hr.keys_nodup⟩
   exact h0.congr (created_ok h n).1 rfl rfl rfl rfl rfl rfl rfl
 
+/-- … also when it starts at the router's current time (a realm created later) -/
+theorem keysOk_created_at {cfg : Config} {r : Realm} (h : Realm.create cfg = some r) (n t : Nat) :
+    KeysOk ({ r with pubCount := n, now := t } : Realm) := by
+  have hr : Realm.Reachable cfg r := .init h
+  have h0 : KeysOk r := ⟨hr.inv.1, hr.inv.2, hr.ctl, hr.keys_nodup⟩
+  exact h0.congr (created_ok_at h n t).1 rfl rfl rfl rfl rfl rfl rfl
+
 /-- every realm of the table satisfies `KeysOk` -/
 def RealmsKeysOk (rt : Router) : Prop := ∀ p ∈ rt.realms, KeysOk p.2
 
@@ -62,7 +70,7 @@ theorem realmsKeysOk_ensureRealm {rt : Router} (h : RealmsKeysOk rt) (name : Str
     rcases List.mem_append.mp hp with hp | hp
     · exact h p hp
     · rw [List.mem_singleton.mp hp]
-      exact keysOk_created hcr _
+      exact keysOk_created_at hcr _ _
 
 theorem realmsKeysOk_step {rt : Router} (h : RealmsKeysOk rt) (op : ROp) : RealmsKeysOk (rt.step op).2 := by
   cases op with
@@ -87,7 +95,7 @@ theorem realmsKeysOk_step {rt : Router} (h : RealmsKeysOk rt) (op : ROp) : Realm
         exact realmsKeysOk_setRealm (rt := rt) h ((h _ (realm?_mem hr)).step op) rt.sessRealm
   | tick ms =>
     rw [step_tick_eq]
-    apply tickFold_all KeysOk ms rt.realms ({}, rt) h
+    apply tickFold_all KeysOk ms rt.realms ({}, { rt with now := rt.now + ms }) h
     intro p hp
     exact (h p hp).step (.tick ms)
   | rnd n =>
@@ -116,7 +124,7 @@ theorem realmsKeysOk_step {rt : Router} (h : RealmsKeysOk rt) (op : ROp) : Realm
         rcases List.mem_append.mp hp with hp | hp
         · exact h p hp
         · rw [List.mem_singleton.mp hp]
-          exact keysOk_created hcr _
+          exact keysOk_created_at hcr _ _
       · exact h
 
 theorem createStep_keysOk {acc : Option Router} (h : ∀ rt, acc = some rt → RealmsKeysOk rt) (cfg : Config) :
